@@ -33,7 +33,9 @@ func indexSize(t modeling.Topology) int {
 
 func randVal(r *hx.Rng, even bool) int64 {
 	var v int64
-	switch r.Intn(6) {
+	switch r.Intn(7) {
+	case 6:
+		v = 0 // the special value: "empty" / "unset" shortcuts show on exact zeros (any attribute, any component)
 	case 0:
 		v = int64(r.Range(-2, 2))
 	case 1:
@@ -89,13 +91,22 @@ func Random(r *hx.Rng, opt Options) Desc {
 	}
 	chosen := []kn{}
 	seen := map[kn]bool{}
-	if opt.NeedPos || r.Chance(5, 6) {
+	noPos := false
+	if opt.NeedPos || r.Chance(4, 5) {
 		chosen = append(chosen, kn{3, "Position"})
 		seen[kn{3, "Position"}] = true
+	} else {
+		noPos = true // a mesh WITHOUT the conventional Position: code that reads a size or a default off "Position" shows here
 	}
 	extra := r.Intn(4)
+	if noPos && extra == 0 {
+		extra = r.Range(1, 3)
+	}
 	for i := 0; i < extra; i++ {
 		k := kn{r.Range(1, 4), hx.Pick(r, namePool)}
+		if noPos && i == 0 && r.Bool() {
+			k = kn{3, hx.Pick(r, []string{"Normal", "Color", "a", "b"})} // another Float3 attribute in its place
+		}
 		if r.Chance(1, 3) {
 			k = hx.Pick(r, []kn{{3, "Normal"}, {2, "TexCoord"}, {4, "Color"}, {1, "Opacity"}})
 		}
